@@ -2176,15 +2176,14 @@ argument `default_label_format` (e.g. 'x{}').
         for vg in self._groups:
             if len(vg) == 0:
                 continue
-            if isinstance(vg, SingletonVariableGroup):
-                yield vg.name
-                varid += 1
-                continue
             begin = vg[0]
             while varid < begin:
                 yield default_label_format.format(varid)
                 varid += 1
-            yield from vg.label()
+            if isinstance(vg, SingletonVariableGroup):
+                yield vg.name
+            else:
+                yield from vg.label()
             varid += len(vg)
         while varid <= end:
             yield default_label_format.format(varid)
